@@ -18,7 +18,12 @@ def run(tier):
     for l, r, rk in itertools.product(ops, ops, ["true", "false", "nil", "zero"]):
         fams.append(("lefallbk",) + gen_meta.le_fallback_case(l, r, rk) + (None,))
     for o, c in itertools.product(gen_meta.OPERANDS, gen_meta.CONFIGS):
-        fams.append(("unm",) + gen_meta.unm_case(o, c) + (None,))
+        fams.append(("unm",) + gen_meta.unm_case(o, c, rng.choice(gen_meta.PROTS)) + (None,))
+    # comparisons between objects whose handlers are twin closures / protected metatables: every pair, every operator
+    for op, l, r, pr in itertools.product(gen_meta.COMP, ["tA", "tB", "uA"], ["tA2", "tB", "uB"], ["", "str", "false", "decoy"]):
+        fams.append(("twin",) + gen_meta.binop_case(op, l, r, "AB-twin", "str", pr) + (None,))
+    for op, l, r, pr in itertools.product(["+", ".."], ["num", "str", "plain", "tA"], ["tB", "uB"], ["str", "false", "decoy", "true"]):
+        fams.append(("prot",) + gen_meta.binop_case(op, l, r, "B", "str", pr) + (None,))
     for _ in range(1500 if thorough else 250):
         fams.append(("index",) + gen_meta.index_case(rng) + (None,))
     for pos, na, hk in itertools.product(["call", "tail", "stat", "forin", "gcall", "pcall", "nested"], [0, 1, 3], ["function", "nonfunction", "nil", "builtin:rawequal", "builtin:type", "builtin:select", "builtin:rawget"]):
@@ -30,7 +35,7 @@ def run(tier):
     progs = lsem.number(fams)
     verd, cov, allv, allo, stats = lsem.run_families(
         PROP, tier, progs,
-        "operand pairs from {number, numeric string, string, plain table, tables with metatable A/A/B, userdata with metatable A/B, nil, boolean} x every arithmetic/concat/comparison operator x handler presence {none, A only, B only, both same handler, both different} x handler result kind, sampled from %d combinations (operands both as constants/upvalues and as registers); <= fallback to not(b<a); unary minus; __index/__newindex chains of depth 1-4 through tables and functions with raw bypass; __call in call/tail/statement/for-in/host re-entry/pcall/nested position; tostring/__metatable/getmetatable/setmetatable" % nspace,
+        "operand pairs from {number, numeric string, string, plain table, tables with metatable A/A/B, userdata with metatable A/B, nil, boolean} x every arithmetic/concat/comparison operator x handler presence {none, A only, B only, both same handler, both different, both twin closures of one function literal} x handler result kind x __metatable {absent, string, false, true, decoy table of handlers}, sampled from %d combinations (operands both as constants/upvalues and as registers); <= fallback to not(b<a); unary minus; __index/__newindex chains of depth 1-4 through tables and functions with raw bypass; __call in call/tail/statement/for-in/host re-entry/pcall/nested position; tostring/__metatable/getmetatable/setmetatable" % nspace,
         [], t0, max_steps=20000, extra_cov={"binop_space": nspace}, nontrivial_min_emits=2)
     rc = verd.finish()
     cov["known_findings_hit"] = sorted(verd.known_hit)
